@@ -36,6 +36,21 @@ def runner_check(scn, rule, probes, assumptions, quick=25, thorough=900):
 
 
 CHECKS = {
+    "C09": {
+        "testpkg": "./internal",
+        "instrument": [{"pkg": "./internal", "files": ["delimited.go"], "mode": "S"}],
+        "sim": ["simrt", "simwork", "simio"],
+        "harness": [("internal", "internal")],
+        "scenarios": [{"name": "c09-delimited", "share": 0.7}, {"name": "c09-codec", "share": 0.3}],
+        "budget": {"quick": {"seconds": 30, "workers": 16}, "thorough": {"seconds": 900, "workers": 16}},
+        "level": "exploration",
+        "rule": "c09-delimited: one simulated execution of a loop of ReadDelimitedMessage calls (instrumented: reader goroutine, select on the fake clock) over a simulated stream carrying 0-5 frames (empty, small, exactly the limit, limit+1, oversize prefixes up to 2^32-1), split into segments with seeded arrival gaps (0, 1 ms, timeout/2, timeout-1ns, exactly timeout, timeout+1ns, 3x timeout), seeded chunking of every Read, cut at any byte, end kind eof / eof-with-data / I/O error / error-with-data / stall; a reference model walks the frames with the stream's arrival times and predicts result, error class, return instant and the progress figures of the timeout text. c09-codec: binary and JSON stream codecs round-trip under seeded chunking and cuts. Distinct = hash of step log + chunk sizes (+ case shape); non-trivial = more than one chunk or a cut or a non-EOF end.",
+        "expect_probes": ["timeout-fired", "oversize-rejected", "boundary-at-timeout-instant", "truncate-at-byte", "end:stall", "end:eof-with-data", "data-exactly-at-timeout"],
+        "real": ["internal/delimited.go (instrumented copy of the current tree), internal/codec.go (protoDecoder/Encoder, jsonDecoder/Encoder), protobuf, encoding/json"],
+        "stubbed": ["the peer's pipe: simio.Reader (seeded chunking, arrival times, faults)", "wall clock: synctest fake clock", "goroutine scheduling of delimited.go: seeded scheduler"],
+        "assumptions": ["a zero-length Read returns immediately (as OS pipes do)", "when data or the end arrives exactly at the timeout instant either outcome is accepted, never a late return or a torn message",
+                        "the stall clause applies to ReadDelimitedMessage (the only reader with a timeout); the codecs are checked for framing and truncation"],
+    },
     "C04": runner_check(
         "c04",
         "each evaluation is one simulated execution of connectconformance.Run itself (config file, suite file, patterns, report) with scripted peers in every process slot (under-test or reference slots); the selected cases' fates (pass, assertion failure, client error, neither, never answered), markings (unmarked / known failing / known flaky), peer feedback (reference-server stderr, reference-client feedback), the client process fate (exits 0 or non-0 early, stalls, cut output) and server fates (start error, garbage, never, exits before request, dies mid-batch) and every scheduling decision come from one tape; the boolean returned by Run is compared with an independent reference model of the statement. Distinct = hash of step log + harness events; non-trivial = a fault fired or a preemption happened; abstract_cover lists the truth-table rows (fate x marking x feedback x process fate) reached.",
